@@ -33,6 +33,33 @@ def check(ctx):
              "min_width = a constant <= 5, min(_, context.min_wrap_width), or the prefix width it also stores as prefix_size")
     for rid, fn in (("C11-A", rule_a), ("C11-B", rule_b), ("C11-C", rule_c), ("C11-D", rule_d)):
         ctx.guard(rid, fn)
+    from .. import widths as _w
+    ctx.rule("C11-E", "width_minus returns max(width − prefix, min_width) whether or not overflow is allowed: the option only "
+             "removes the error, it does not change the width a block gets when the rendering succeeds anyway")
+    ctx.guard("C11-E", _w.rule_width_minus_def, "C11-E")
+
+
+def rule_a_as(ctx, rid):
+    """the width-0 rule reported under another property's id (all routes share the same width precondition: C10-B)"""
+    class _Proxy:
+        def __init__(self, c):
+            self._c = c
+
+        def __getattr__(self, n):
+            return getattr(self._c, n)
+
+        def check(self, okc, _rid, *a, **k):
+            return self._c.check(okc, rid, *a, **k)
+
+        def violation(self, _rid, *a, **k):
+            return self._c.violation(rid, *a, **k)
+
+        def ok(self, _rid, *a, **k):
+            return self._c.ok(rid, *a, **k)
+
+        def floor(self, _rid, *a, **k):
+            return self._c.floor(rid, *a, **k)
+    rule_a(_Proxy(ctx))
 
 
 def rule_a(ctx):
